@@ -1015,3 +1015,59 @@ def r_coordinate_split_floors(ck, P, rid='C03-R16'):
                 ck.violation(R, f.name, 'coordinate %s %s %d' % (f.params[base[1]][0], '/' if x.op == 'sdiv' else '%', k), '%s reduces its signed coordinate %s with %s %d (%s): for a negative coordinate the quotient is rounded towards zero and the remainder is negative, so the word / table entry addressed is not the one the coordinate names - pixels next to the requested rectangle are written, or a table is read in front of its first entry' % (f.name, f.params[base[1]][0], 'a signed division by' if x.op == 'sdiv' else 'a signed remainder modulo', k, x.loc()), x.loc())
     if n == 0:
         raise AnalysisBroken('%s: no coordinate parameter is split anywhere' % rid)
+
+
+def r_dispatch_needs_extent_analysis(ck, P, rid='C04-R19'):
+    """T-GRD across entry points: the composite routines assume what the extent analysis establishes about a source (an image narrower
+    than 0x7fff, transformed extents that fit in 16.16 with a margin).  Whoever looks a routine up and calls it has put the source of
+    that very request through the analysis first, and goes on only when it answered TRUE."""
+    R = ck.rule(rid, 'in every function that obtains a composite routine from _pixman_implementation_lookup_composite and calls it, each such indirect call is reached only through an edge on which a call of the extent analysis (the function that grants SAMPLES_COVER_CLIP, or a wrapper that returns its result) for an image parameter has answered non-zero: pixman_composite_glyphs_no_mask dispatched the scaled bilinear fast paths for a 40000-pixel PAD source that pixman_image_composite32 refuses, and the MMX scanline, stepping x in 16.16, read 128 KB in front of the source', floor=2)
+    C = consts.fast_path_flags()
+    cover = C['FAST_PATH_SAMPLES_COVER_CLIP_NEAREST']
+    A = {f for f in P.functions() if not f.exported and f.type.startswith('i32 ') and any(x.op == 'or' and any(a[0] == 'c' and int(a[1]) == cover for a in x.a) for x in f.insts())}
+    if not A:
+        raise AnalysisBroken('%s: the extent analysis was not found' % rid)
+    # wrappers: functions that return the result of a call to it
+    for f in P.functions():
+        if f in A:
+            continue
+        cs = [c for c in f.calls() if isinstance(c.callee, str) and P.resolve(f, c.callee) in A]
+        if cs and any(t.a and t.a[0][0] == 'v' and t.a[0][1] == cs[0].i for t in f.rets()):
+            A = A | {f}
+    n = 0
+    for f in P.functions():
+        if not any(isinstance(c.callee, str) and c.callee == '_pixman_implementation_lookup_composite' for c in f.calls()):
+            continue
+        # only where the request's source is an image the caller handed in as it is (a parameter stored into info.src_image); the
+        # tiled-repeat path and the glyph accumulation dispatch with sources they have built or reduced themselves (untransformed,
+        # coordinates inside the image)
+        if not any(x.op == 'store' and (f.last_field(f.path(x.a[1])) or '').endswith('.src_image') and f.strip_casts(x.a[0])[0] == 'a' for x in f.insts()):
+            continue
+        for c in f.calls():
+            if c.callee is not None or 'callee' not in c.d:
+                continue
+            y = f.v(c.d['callee']) if c.d['callee'][0] == 'v' else None
+            if y is None or y.op != 'load' or f.root(f.path(y.a[0]))[0] != 'alloca':
+                continue
+            n += 1; ck.saw(f)
+            ok = False
+            for t, s in f.guard_edges(c.bb.id):
+                if t.op != 'br' or not t.a:
+                    continue
+                cc, p, ops = f.cond(t.a[0])
+                if cc is None:
+                    continue
+                cands = [cc] if cc.op == 'call' else [f.v(o) for o in (ops or []) if o[0] == 'v']
+                for q in cands:
+                    if q is not None and q.op == 'call' and isinstance(q.callee, str) and P.resolve(f, q.callee) in A:
+                        taken_true = t.d['succ'][0] == s
+                        nonzero = (p in ('is', 'ne') and taken_true) or (p in ('not', 'eq') and not taken_true)
+                        if nonzero:
+                            ok = True
+            where = '%s: composite routine called at %s' % (f.name, c.loc())
+            if ok:
+                ck.ok(R, where, 'after the extent analysis')
+            else:
+                ck.violation(R, f.name, 'composite routine dispatched without extent analysis', '%s calls a composite routine it looked up itself (%s) without having put the request\'s source through the extent analysis: sources and extents that pixman_image_composite32 refuses (an image of 0x7fff pixels and more, transformed extents beyond the 16.16 range) reach fast paths that step their coordinates in 32 bits, wrap, and read far outside the image' % (f.name, c.loc()), c.loc())
+    if n == 0:
+        raise AnalysisBroken('%s: no dispatch of a looked-up composite routine found' % rid)
